@@ -22,7 +22,9 @@ BaseLoops == {"while", "for", "dowhile", "labelled", "recursion", "mutual", "reg
               "nested_eval_loop", "regex_short_runs", "regex_many_attempts", "regex_lookbehind_in_loop"}
 \* a value created by one evaluation and used by a later one on the same context, after the first one's deadline is
 \* long past on the (virtual) clock: the later evaluation has its own budget and must finish normally
-CarryLoops == {"carry_regex_literal", "carry_regex_ctor", "carry_regex_in_closure", "carry_function", "carry_string_method_regex"}
+CarryLoops == {"carry_regex_literal", "carry_regex_ctor", "carry_regex_in_closure", "carry_function", "carry_string_method_regex",
+               \* the same pattern text used again, on the same context and on a FRESH context of the same process
+               "carry_string_pattern", "fresh_string_pattern", "fresh_regex_literal", "fresh_regex_ctor"}
 Loops == BaseLoops \cup RxLoops \cup CarryLoops
 Places == {"top", "function", "arrow", "ctor", "cb_forEach", "cb_map", "cb_filter", "cb_reduce", "cb_reduceRight",
            "cb_some", "cb_every", "cb_find", "cb_findIndex", "cb_sort", "getter", "setter", "valueOf", "call", "apply", "bind",
